@@ -183,6 +183,37 @@ pub fn firing_rules(case: &Case, h: &Hist, ag: &Agenda) -> Firing {
     f
 }
 
+/// C15 on whole simulations: every explicit read of the simulation time (`Context::time` in a
+/// handler, `Scheduler::time` on another thread) returns a value the simulation had been given by
+/// then (ground truth: the trace of time writes, logged before a written value becomes readable),
+/// never goes backwards for one reader, and in a handler equals the current time (the time only
+/// changes between runs of the executor).
+pub fn reads(_case: &Case, h: &Hist, ag: &Agenda) -> Vec<Violation> {
+    let mut v = Vec::new();
+    let mut last: std::collections::BTreeMap<String, T> = Default::default();
+    for (seq, actor, t) in &h.time_reads {
+        let held: Vec<T> = ag.time_writes.iter().filter(|(ws, _)| ws < seq).map(|(_, x)| *x).collect();
+        if held.is_empty() {
+            continue;
+        }
+        if !held.contains(t) {
+            v.push(Violation::new("c15_time_never_held", format!("{:?} read the time {:?} at seq {}, a value the simulation never had (it had {:?})", actor, t, seq, held)));
+            continue;
+        }
+        let key = format!("{:?}", actor);
+        if let Some(prev) = last.get(&key) {
+            if t < prev {
+                v.push(Violation::new("c15_time_went_back", format!("{:?} read {:?} at seq {} after having read {:?}", actor, t, seq, prev)));
+            }
+        }
+        last.insert(key, *t);
+        if matches!(actor, Actor::Node(_)) && held.last() != Some(t) {
+            v.push(Violation::new("c15_stale_time_in_handler", format!("{:?} read {:?} at seq {} inside a handler while the simulation time was {:?}", actor, t, seq, held.last())));
+        }
+    }
+    v
+}
+
 /// C01.
 pub fn chronology(case: &Case, h: &Hist, ag: &Agenda) -> Vec<Violation> {
     let mut v = Vec::new();
